@@ -242,7 +242,7 @@ theorem isUserAuthenticated_refines (c : Handler.Cfg) (e : Handler.Env) (v : Ses
   unfold Code.TraefikOidc_isUserAuthenticated Handler.classify
   generalize hvj : Code.TraefikOidc_VerifyJWTSignatureAndClaims (e.now * 1000000000) t = vj at hV ⊢
   clear hvj
-  obtain ⟨ex, ad, ar, gp, ecf, pj, iu, ci, gj, tp, vs⟩ := t
+  obtain ⟨ex, ad, ar, gp, ecf, ecl, pj, iu, ci, gj, tp, vs⟩ := t
   simp only at hG hP hV hE
   rw [← hA, ← hR, ← hT]
   have ee : (['e','x','p'] : Str) = "exp".toList := rfl
